@@ -33,7 +33,22 @@ def sha(obj, n=12):
 def load_known():
     with open(os.path.join(VERIF, "known_findings.json")) as f:
         data = json.load(f)
-    return {e["signature"]: e for e in data.get("open", [])}
+    out = {}
+    for e in data.get("open", []):
+        for sig in e.get("signatures", []):
+            out[sig] = e
+    return out
+
+
+def fixed_demos(pid):
+    """Regression tier: demo programs of repaired findings that concern this property (exit 0 = property holds)."""
+    with open(os.path.join(VERIF, "known_findings.json")) as f:
+        data = json.load(f)
+    demos = []
+    for line in data.get("fixed", []):
+        if (f"property={pid} " in line or f"also {pid}" in line) and "demo findings/" in line:
+            demos.append(os.path.join(VERIF, "findings", line.split("demo findings/")[1].split()[0].rstrip(";,.")))
+    return demos
 
 
 class Outcome(dict):
@@ -195,6 +210,36 @@ def main(argv=None):
     with ctx.Pool(min(nshards, os.cpu_count() or 1)) as pool:
         results = pool.map(worker, jobs, chunksize=1)
     known = load_known()
+    # probes of recorded findings (known or repaired) and regression demos of repaired ones
+    from . import probes as _probes
+
+    probe_rows = []
+    for kid, fn in _probes.for_property(pid):
+        try:
+            with warnings.catch_warnings():
+                warnings.simplefilter("ignore")
+                detail = fn()
+        except Exception as e:
+            detail = f"probe raised {type(e).__name__}: {e}"
+        probe_rows.append((kid, detail))
+        if detail is not None:
+            sig = f"{pid}:known-{kid}"
+            results[0]["failures"][sig] = {"size": 0, "case": {"probe": kid, "see": "vcheck/probes.py"}, "detail": detail, "signature": sig}
+    demo_rows = []
+    import subprocess
+
+    repo = os.environ.get("VERIF_REPO", "/repo")
+    for demo in fixed_demos(pid):
+        try:
+            cp = subprocess.run([sys.executable, demo, repo], capture_output=True, text=True, timeout=120)
+            ok = cp.returncode == 0
+            tail = (cp.stderr or cp.stdout).strip().splitlines()[-1:] if not ok else []
+        except subprocess.TimeoutExpired:
+            ok, tail = False, ["timeout"]
+        demo_rows.append((os.path.basename(demo), ok))
+        if not ok:
+            sig = f"{pid}:regression-{os.path.basename(demo)}"
+            results[0]["failures"][sig] = {"size": 0, "case": {"demo": demo, "run": f"python {demo} {repo}"}, "detail": f"repaired finding is back: {demo} fails: {tail}", "signature": sig}
     evaluations = sum(r["evaluations"] for r in results)
     hashes = set().union(*(r["nontrivial_hashes"] for r in results))
     labels, stats, extra = {}, {}, {}
@@ -246,6 +291,8 @@ def main(argv=None):
         "exhaustive": bool(extra.pop("exhaustive", False)) if "exhaustive" in extra else False,
     }
     cov.update(extra)
+    cov["probes"] = {k: ("reproduces: " + d if d else "property holds on the probe (finding does not reproduce)") for k, d in probe_rows}
+    cov["regression_demos"] = {n: ("pass" if ok else "FAIL") for n, ok in demo_rows}
     if known_hits:
         cov["known_findings_reproduced"] = known_hits
     if hasattr(mod, "evidence_hook"):
